@@ -4,7 +4,7 @@ from __future__ import annotations
 import ast
 from typing import Dict, Iterator, List, Optional, Set, Tuple
 
-from .expr import SELF, root_of, show, strip_epochs, walk
+from .expr import C, SELF, canon, root_of, show, strip_epochs, walk
 from .intervals import TYPE_RANGE, Iv
 from .model import AnalysisError, ClassInfo, FuncInfo, Program
 from .walk import Event, State, Walker
@@ -135,13 +135,23 @@ def conds_at(p: State, e: Event) -> List[tuple]:
     for c in p.conds[: e.ncond]:
         if c.atom[0] == "loop0":
             continue
+        atom = _length_atom(c.atom)
         if c.truth:
-            out.append(c.atom)
+            out.append(atom)
         else:
             from .expr import _norm_node
-            n = ("un", "not", c.atom)
+            n = ("un", "not", atom)
             out.append(_norm_node(n) or n)
     return out
+
+
+def _length_atom(atom):
+    """truthiness of a tail slice is a statement about the length: x[k:] is non-empty exactly when len(x) > k (k a non-negative constant)"""
+    a = strip_epochs(atom)
+    if a[0] == "slice" and a[2][0] == "c" and isinstance(a[2][1], int) and not isinstance(a[2][1], bool) and a[2][1] >= 0 \
+            and a[3] == C(None) and a[4] == C(None):
+        return ("cmp", ">", ("call", ("g", "len"), (atom[1],), ()), a[2])
+    return atom
 
 
 def all_conds(p: State) -> List[tuple]:
@@ -284,6 +294,26 @@ def _read_back(v, back):
     return tuple(_read_back(x, back) for x in v)
 
 
+CONTAINER_METHODS = {"__setitem__", "__delitem__", "pop", "get", "append", "add", "discard", "remove", "clear", "popitem", "update", "setdefault", "insert", "extend", "items", "keys", "values"}
+
+
+def held_method_call(prog: Program, cname: str, e: Event):
+    """a call through a field that remembers a bound method of a container held by the same object (self._drop = self._table.pop ... self._drop(k)):
+    (container expression, method name, stale) - stale is None when every path that re-binds the container refreshes the remembered method,
+    else (function, event) of a re-binding that does not; None when the call is not of that kind"""
+    if e.kind != "call" or e.d.get("fn") is None:
+        return None
+    fn = strip_epochs(e.fn)
+    if not (fn[0] == "f" and fn[1] == SELF):
+        return None
+    derived, stale = maintained_derived(prog, cname)
+    F = derived.get(fn[2])
+    if F is None or F[0] != "f":
+        return None
+    st = stale.get(fn[2])
+    return F[1], F[2], (st[0], st[1]) if st else None
+
+
 def maintained_derived(prog: Program, cname: str):
     """fields of `cname` that remember a formula over other fields of the same object - ({field: formula}, {field: reason it is stale}).
     A field D qualifies when EVERY assignment to it in the class hierarchy stores one and the same expression F over other fields
@@ -322,6 +352,8 @@ def maintained_derived(prog: Program, cname: str):
                    (n[0] == "call" and n[1][0] == "ext" and n[1][1] == "math") or (n[0] == "ext" and n[1] == "math") for n in walk(F))
         if ins and pure and F[0] in ("nary", "bin", "call"):
             derived[d] = F
+        elif F[0] == "f" and F[1][0] == "f" and F[1][1] == SELF and F[1][2] != d and F[2] in CONTAINER_METHODS:
+            derived[d] = F  # a remembered bound method of a container the object holds: stale as soon as that field is re-bound
     stale = {}
     for d, F in derived.items():
         ins = {n[2] for n in walk(F) if n[0] == "f" and n[1] == SELF and n[2] != d}
@@ -500,3 +532,78 @@ def alias_view(p: State, mapping: dict):
     if ex is not None and len(ex) > 1 and isinstance(ex[1], tuple):
         ex = (ex[0], sub(ex[1])) + tuple(ex[2:])
     return SimpleNamespace(events=events, conds=conds, exit=ex, fields={k: sub(v) for k, v in p.fields.items()}, notes=getattr(p, "notes", []))
+
+
+_LEMMA_CACHE = {}
+
+
+def empty_subfilter_lemma(prog, E, wctx):
+    """None when 'a sub-filter whose counter is 0 has all-zero cells' is an invariant of wctx, else the reason it is not: every store into a
+    sub-filter's cells reachable from wctx happens in a function whose every storing path also raises that sub-filter's counter, and the counter
+    is written nowhere else (a fresh sub-filter starts with counter 0 and zero cells)"""
+    key = (id(prog), wctx)
+    if key in _LEMMA_CACHE:
+        return _LEMMA_CACHE[key]
+    why = None
+    sites = set()
+    for f in mro_methods(prog, wctx):
+        for e in E.of(wctx, f):
+            if e[0] == "self" and e[1].startswith("_blooms[*].") and e[1].split(".", 1)[1] in ("_bloom", "_els_added"):
+                sites.add((e[1].split(".", 1)[1], e[2], e[3].split("@")[0]))
+    fns = {q for (_, _, q) in sites}
+    for q in sorted(fns):
+        cn, fn = q.split(".", 1)
+        g = prog.classes[cn].find_method(fn) if cn in prog.classes else None
+        if g is None:
+            why = f"{q} writes a sub-filter and could not be resolved"
+            break
+        for pp in paths(prog, cn, g):
+            st_ = [e for e in pp.events if e.kind == "setelem" and strip_epochs(e.cont) == ("f", SELF, "_bloom", 0)]
+            up = [e for e in pp.events if e.kind == "setfield" and e.base[0] == "self" and e.name == "_els_added"]
+            raised = any(canon(strip_epochs(e.value))[0] in ("bin", "nary") and any(n[0] == "f" and n[2] == "_els_added" for n in walk(e.value))
+                         and any(n[0] == "c" and isinstance(n[1], int) and n[1] > 0 for n in walk(e.value))
+                         and not any(n[0] in ("bin",) and n[1] == "-" for n in walk(e.value)) for e in up)
+            if st_ and not raised:
+                why = f"{q} stores into a sub-filter's cells on a path that does not raise its counter: a sub-filter with counter 0 may hold set bits"
+                break
+            if up and not raised:
+                why = f"{q} rewrites a sub-filter's counter ({nshow(up[-1].value)}): a sub-filter with counter 0 may hold set bits"
+                break
+        if why:
+            break
+    _LEMMA_CACHE[key] = why
+    return why
+
+
+def empty_filter_reports_absent(prog, cls="BloomFilter"):
+    """None when cls.check_alt cannot answer anything but False on all-zero cells, else the reason: every path that returns something other than
+    False either runs the probe loop zero times over range(number of hashes) (the constructor rejects zero hashes) or has taken a branch on which
+    `cell & mask` of a cell of the bit array was non-zero, which all-zero cells cannot satisfy"""
+    key = (id(prog), cls, "absent")
+    if key in _LEMMA_CACHE:
+        return _LEMMA_CACHE[key]
+    g = prog.classes[cls].find_method("check_alt") if cls in prog.classes else None
+    why = None
+    if g is None:
+        why = f"{cls}.check_alt not found"
+    else:
+        def cell_and(x):
+            return x[0] in ("nary", "bin") and x[1] == "&" and any(n[0] == "sub" and n[1][0] == "f" and n[1][2] == "_bloom" for n in walk(x))
+        for pp in paths(prog, cls, g):
+            if pp.exit[0] != "return" or strip_epochs(pp.exit[1]) == C(False):
+                continue
+            ok = False
+            for c in pp.conds:
+                a = strip_epochs(c.atom)
+                if a[0] == "loop0" and c.truth and any(n[0] == "f" and n[2] == "_number_hashes" for n in walk(a[2])):
+                    ok = True
+                elif cell_and(a) and c.truth:
+                    ok = True
+                elif a[0] == "cmp" and C(0) in (a[2], a[3]) and cell_and(a[3] if a[2] == C(0) else a[2]) and \
+                        ((a[1] == "==" and not c.truth) or (a[1] in ("!=", ">") and c.truth)):
+                    ok = True
+            if not ok:
+                why = f"{cls}.check_alt may answer {nshow(pp.exit[1])} without having found a set bit"
+                break
+    _LEMMA_CACHE[key] = why
+    return why
